@@ -122,7 +122,8 @@ def run(prog, rep):
     # ---------------------------------------------------------------- R1.2
     seen = 0
     for f in sorted(prog.funcs.values(), key=lambda g: g.id):
-        if f.q not in ('BitSerializer::LoadObject', 'BitSerializer::SaveObject') or f.body is None:
+        # the session body: LoadObject / SaveObject themselves, or a helper of bit_serializer.h they forward to
+        if f.body is None or not (f.q in ('BitSerializer::LoadObject', 'BitSerializer::SaveObject') or (f.relfile.endswith('bitserializer/bit_serializer.h') and f.q.startswith('BitSerializer::'))):
             continue
         calls = []
         for n in f.walk():
